@@ -299,6 +299,27 @@ Proof.
 Qed.
 Print Assumptions C12_duration_cast_total.
 
+(* the hypotheses plus_ok / minus_ok / div_ok of C12_plus, C12_minus, C12_div, C12_mod are tight:
+   once both counts convert to the common type, the model has undefined behaviour exactly when the
+   exact result does not fit the common representation or the divisor is zero *)
+Theorem C12_arith_ub_exact : forall w1 n1 d1 w2 n2 d2,
+  rep_ok w1 = true -> rep_ok w2 = true -> period_ok n1 d1 = true -> period_ok n2 d2 = true ->
+  forall c1 c2, both_ok w1 n1 d1 w2 n2 d2 c1 c2 = true ->
+  let a := Dur w1 n1 d1 in let b := Dur w2 n2 d2 in let wc := Z.max w1 w2 in
+  plus_m a b c1 c2 = (if fits wc (plus_spec n1 d1 n2 d2 c1 c2)
+                      then Val (plus_spec n1 d1 n2 d2 c1 c2) else Ub SignedOverflow)
+  /\ minus_m a b c1 c2 = (if fits wc (minus_spec n1 d1 n2 d2 c1 c2)
+                          then Val (minus_spec n1 d1 n2 d2 c1 c2) else Ub SignedOverflow)
+  /\ (c2 = 0 -> div_m a b c1 c2 = Ub DivByZero /\ mod_m a b c1 c2 = Ub DivByZero)
+  /\ (c2 <> 0 -> fits wc (div_spec n1 d1 n2 d2 c1 c2) = false ->
+        div_m a b c1 c2 = Ub SignedOverflow /\ mod_m a b c1 c2 = Ub SignedOverflow).
+Proof.
+  intros w1 n1 d1 w2 n2 d2 Hw1 Hw2 Hp1 Hp2 c1 c2 Hb. cbv zeta.
+  split; [apply plus_m_tight; assumption|]. split; [apply minus_m_tight; assumption|].
+  apply div_mod_m_tight; assumption.
+Qed.
+Print Assumptions C12_arith_ub_exact.
+
 (** * the named duration types *)
 Theorem C12_typedefs :
   forallb (fun p => let '((w, n, d), (bits, sn, sd)) := p in (n =? sn) && (d =? sd) && (bits <=? w))
